@@ -351,6 +351,15 @@ Proof.
   destruct (bind_var_inv _ _ _ _ _ H2 Hv (proj2 Hg) ltac:(proj; exact Hs)) as (S2 & O2 & B2 & K2 & I2). proj. auto 8.
 Qed.
 
+
+(* the buffer of a content parameter is a generated name that is not bound (/repo 516f5ee) *)
+Lemma genname_post v st g st' : jsc_genname v st = Ok (g, st') -> ident_ok v = true -> scope_ok (j_scope st) ->
+  buf_ok g /\ scope_ok (j_scope st') /\ j_out st' = j_out st /\ j_buf st' = j_buf st /\ j_called st' = j_called st /\ j_indent st' = j_indent st.
+Proof.
+  intros H Hv Hs. apply genname_inv in H. destruct H as [-> ->].
+  pose proof (gen_buf_ok v (j_n st + 1) Hv) as Hg. proj. split; [exact Hg|]. split; [exact Hs|]. repeat split; reflexivity.
+Qed.
+
 Lemma post_letvalue name e : ident_ok name = true -> oke e = true ->
   stmt_post0 (v <~ jblock w e ;; g <~ jsc_makevar name ;; jsln ([CText t_var; CName g; CText t_eq] ++ v ++ [CText t_semi])).
 Proof.
@@ -715,7 +724,7 @@ Proof.
       exists cs, m1. split; [unfold ext in *; rewrite E, O1; reflexivity|]. split; [exact C|]. split; [exact A|]. split; [exact Hm1|]. split; [exact S|]. split; [congruence|exact K].
     + (* content *)
       apply bind_inv in H. destruct H as (st0 & st1 & H0 & H). apply get_inv in H0. destruct H0; subst. cbv beta zeta in H.
-      apply bind_inv in H. destruct H as (g & st1 & H1 & H). destruct (makevar_inv _ _ _ _ H1 eq_refl Hs) as ([Hg1 Hg2] & S1 & O1 & B1 & K1 & _).
+      apply bind_inv in H. destruct H as (g & st1 & H1 & H). destruct (genname_post _ _ _ _ H1 eq_refl Hs) as ([Hg1 Hg2] & S1 & O1 & B1 & K1 & _).
       apply bind_inv in H. destruct H as (u2 & st2 & H2 & H). jinv H2. apply bind_inv in H. destruct H as (u3 & st3 & H3 & H). jinv H3.
       apply bind_inv in H. destruct H as (u4 & st4 & H4 & H). apply bind_inv in H. destruct H as (u5 & st5 & H5 & H6). jinv H5. units.
       match type of H4 with _ ?sa = Ok (tt, ?sb) =>
